@@ -36,7 +36,7 @@ def features(b):
             active[e.get("w", "")] = e.get("label", "")
         k = e.get("ev", "") + ":" + str(e.get("stage", "")) + ("L" if e.get("late") else "") + ("T" if e.get("ttlb") else "") + (("nchange%d" % e["nchange"]) if e.get("nchange") else "")
         # the account context matters (multi-account interplay): which account is active, which is named
-        k += "@" + active.get(e.get("w", ""), "") + (">" + e["src"] if e.get("src") else "") + (":" + e["tamper"] if e.get("tamper") else "")
+        k += "@" + active.get(e.get("w", ""), "") + (">" + e["src"] if e.get("src") else "") + (">>" + e["dest"] if e.get("dest") else "") + (":" + e["tamper"] if e.get("tamper") else "")
         if e.get("scls") and e.get("ev") in ("lock", "finalize", "cancel", "init_send", "process_invoice", "refresh", "scan"):
             k += "{" + e["scls"] + "}"      # the situation of the step's slate in the acting wallet
         if e.get("kcls"):
@@ -106,9 +106,9 @@ def select_behaviours(behs, n, rnd):
     # phase 0: every CLASS of step the model reaches - kind of step with its stage, account context, verdict, effect size,
     # class of named record, situation of its slate - is exercised by at least one behaviour, whatever histories TLC's
     # workers happened to print (class-level coverage does not depend on the draw)
-    ones = [set(ft for ft in fs if ft[0] == "1") for fs in feats]
+    ones = [set(ft for ft in fs if ft[0] in ("1", "pend")) for fs in feats]      # (class of step, and with how many other transactions pending)
     cov1 = set()
-    while len(chosen) < n // 2 and remaining:
+    while len(chosen) < (2 * n) // 3 and remaining:
         best, gain = None, 0
         for i in remaining:
             g = len(ones[i] - cov1)
@@ -335,6 +335,7 @@ def run(prop, tier, params, t0):
     stats, behs, cex = mc_and_gen(cfgs, tier, params.get("mc_timeout", 1500))
     all_b = prefix_maximal(behs)
     chosen, ncover = select_behaviours(all_b, nbeh, rnd)
+    class_stats = dict(CLASS_STATS)
     # model counter-examples are always replayed on the real code
     cexb = []
     seen = set()
@@ -410,7 +411,7 @@ def run(prop, tier, params, t0):
         "mc_configs": stats,
         "exhaustive": all(s["completed"] for s in stats),
         "behaviours_generated": len(all_b),
-        "step_classes": dict(CLASS_STATS),
+        "step_classes": class_stats,
         "behaviours_replayed": len(behaviours),
         "events_validated": n_events,
         "event_kinds": kinds,
